@@ -362,21 +362,23 @@ impl Property for C17 {
                             }
                         }
                         (Some(_), Some(_)) => {
-                            // second discriminator: the keyword-version stack is parse-history state outside the memo key.
-                            // (1) replayed side effects (hook probe) are reported as supporting evidence;
-                            // (2) the two capacities must agree once the keyword directives are blanked out.
+                            // second discriminator: the keyword-version stack is parse-history state outside the memo key
+                            // (replayed side effects, counted by the hook probe, are reported as supporting evidence)
                             let replay_div = b.kw_replayed_pushes + b.kw_replayed_effective_pops;
                             let replay_ref = a.kw_replayed_pushes + a.kw_replayed_effective_pops;
-                            let neutral = neutralise_keyword_directives(&small);
+                            // causal test: with the keyword set in force frozen to the default (hook knob; the stack is
+                            // still pushed and popped), do the two capacities agree? Then the divergence was mediated by
+                            // the keyword-version stack, whatever the route (replayed region push, result memoised under
+                            // another keyword set, entry leaked by a failed macro-name lexing).
+                            let version_in_play = small.contains('`');
                             let mut attributed = false;
-                            // (1) was demanded at first; a second unchanged-tree input showed the same defect without any
-                            // replayed side effect: results memoised while one keyword set was in force are replayed while
-                            // another is (the stack is not rolled back when an alternative fails). What remains mechanical:
-                            // a region push was executed in the diverging run, and (2).
-                            let region_in_play = b.sites[4] > 0 || a.sites[4] > 0;
-                            if region_in_play && neutral != small {
-                                let n1 = run_one(sc, &with_text(reference, &neutral), 400_000);
-                                let n2 = run_one(sc, &with_text(c, &neutral), 400_000);
+                            if version_in_play {
+                                let mut f1 = with_text(reference, &small);
+                                f1.freeze_version = true;
+                                let mut f2 = with_text(c, &small);
+                                f2.freeze_version = true;
+                                let n1 = run_one(sc, &f1, 400_000);
+                                let n2 = run_one(sc, &f2, 400_000);
                                 rep.execs += 2;
                                 if let (Ok((n1, _)), Ok((n2, _))) = (n1, n2) {
                                     if let (Some(x), Some(y)) = (accept(&n1), accept(&n2)) {
@@ -385,7 +387,7 @@ impl Property for C17 {
                                 }
                             }
                             if attributed {
-                                v.detail = format!("{} [persists with a flag-aware key; a `begin_keywords region is in play ({} replayed region side effects in the diverging run vs {} in the reference) and the divergence vanishes when the keyword directives are blanked out: the keyword-version stack is mutated inside memoised parsers and consulted by memoised parsers without being part of the key (version_specifier / endkeywords_directive via white_space; is_keyword), sv-parser-parser/src/general/compiler_directives.rs, utils.rs]", v.detail, replay_div, replay_ref);
+                                v.detail = format!("{} [persists with a flag-aware key; vanishes when the keyword set in force is frozen to the default ({} replayed region side effects in the diverging run vs {} in the reference): the keyword-version stack is mutated inside memoised parsers and consulted by memoised parsers without being part of the key (version_specifier / endkeywords_directive via white_space; is_keyword), sv-parser-parser/src/general/compiler_directives.rs, utils.rs]", v.detail, replay_div, replay_ref);
                                 rep.matched.push((KNOWN_ID_KW.to_string(), v));
                             } else {
                                 v.detail = format!("{} [persists with a flag-aware memo key: not the known recursion-flag finding; replayed keyword-region side effects: {} vs {}]", v.detail, replay_div, replay_ref);
